@@ -46,6 +46,10 @@ func c16(tier string) []*explore.Scenario {
 	}
 	out = append(out, c17OpSeqs("C16", tier)...)
 	out = append(out, c17Product("C16"))
+	out = append(out, c16Many(4, 2, true, 0), c16Many(8, 4, false, 0), c16Many(6, 3, true, 0), c16Many(2, 2, false, 1))
+	if tier == "thorough" {
+		out = append(out, c16Many(4, 2, true, 1), c16Many(3, 3, false, 1))
+	}
 	out = append(out, c16RPC("payloads", true, 0))
 	out = append(out, c16Burst(12, 0), c16Burst(50, 0), c16Burst(24, 1))
 	return out
@@ -437,6 +441,48 @@ func c16SlowReceiver(pause time.Duration, bound int) *explore.Scenario {
 				p.B.Break()
 			}
 			vsched.QuiesceTime()
+		},
+	}
+}
+
+// c16Many: nc clients and ns servers (own transport, Demux and Server each)
+// behind one proxy; client i talks to server i mod ns; every client makes a
+// unary call and runs a ping-pong stream at the same time.
+func c16Many(nc, ns int, preAttach bool, bound int) *explore.Scenario {
+	fam := "C16/rpc"
+	return &explore.Scenario{
+		Name: fmt.Sprintf("C16/many/clients=%d/servers=%d/preattach=%v/d=%d", nc, ns, preAttach, bound), Family: fam, Prop: "C16", Bound: bound, SelectCost: true,
+		Run: func() {
+			w := env.NewWorld()
+			env.MsgSize = 0
+			t := env.NewProxyTopo(w, env.ProxyOpts{Clients: nc, Servers: ns, PreAttach: preAttach, Cap: 64})
+			vsched.Settle()
+			vsched.Explore(true)
+			var urecs, srecs []*env.Rec
+			for i := 0; i < nc; i++ {
+				i := i
+				u := w.Rec(fmt.Sprintf("u%d", i), "Unary")
+				urecs = append(urecs, u)
+				vsched.GoNamed("caller-"+u.Tag, func() { w.CallUnary(t.CCs[i], context.Background(), u, "x") })
+				sr := w.Rec(fmt.Sprintf("s%d", i), "Bidi")
+				srecs = append(srecs, sr)
+				c := streamCase{"Bidi", "pingpong", "echo", 2, 0, 0}
+				w.Handlers[sr.Tag] = c.handler()
+				vsched.GoNamed("caller-"+sr.Tag, func() { c.runCaller(w, t.CCs[i], context.Background(), sr) })
+			}
+			vsched.Quiesce()
+			for _, r := range urecs {
+				checkUnary(r, "x", fam)
+			}
+			for _, r := range srecs {
+				if !r.CDone || r.CErr != io.EOF || !eqStrs(r.CRecv, r.HSent) || len(r.CRecv) != 2 || r.HStarts != 1 {
+					vsched.Fail(fam+"|stream", "%d clients, %d servers: stream %s did not complete as on a direct connection: %s", nc, ns, r.Tag, r.Summary())
+				}
+			}
+			if d := vsched.DefaultsTaken(); len(d) > 0 {
+				vsched.Fail(fam+"|drop-below-buffer", "the proxy dropped an envelope (default arm at %v)", d)
+			}
+			vsched.Obs("clients=%d servers=%d: all %d calls completed; dialled %v", nc, ns, 2*nc, t.Dialed)
 		},
 	}
 }
